@@ -165,6 +165,16 @@ def run(report, db, tier):
     cg = CallGraph(db)
     M = ConnModel(db, cg)
     S = shared.summariser(db, cg)
+    # "exactly the same sequence": nothing reaches the wire that was not
+    # written -- in particular not the first half of a packet whose
+    # serialisation failed (decided first: it does not depend on how the
+    # frame is spelt)
+    from ..common import borrow as _borrow
+    from . import c12 as _c12
+    _borrow(report, 'R01.0', "a packet reaches the wire whole or not at all "
+            "(C12's rule on the path summaries of Packet.write)",
+            lambda rid, c: c == 'frame:partial',
+            lambda sub: _c12.whole_frames(sub, db, cg, S))
     writer(report, db, S, M)
     R6 = report.rule('R01.6', 'a new connection starts unframed: _connect '
                      'switches compression off whatever the previous '
